@@ -618,9 +618,9 @@ Definition demo_obs (it : nat) (st : list (pstate float)) : float * list (pstate
   end.
 Definition demo_vars : list (pstate float) := [PScalar 0.5%float; PArray [0.5; 0.5]%float].
 Definition demo_params : @oc_params float :=
-  mkParams (tolx default_params) (tolf default_params) 3 (bmin default_params) (bmax default_params)
-           (move default_params) (l1init default_params) (l2init default_params) (l1l2tol default_params)
-           (warn_eps default_params).
+  mkParams (tolx default_params_float) (tolf default_params_float) 3 (bmin default_params_float) (bmax default_params_float)
+           (move default_params_float) (l1init default_params_float) (l2init default_params_float)
+           (l1l2tol default_params_float) (warn_eps default_params_float).
 
 Lemma demo_run :
   exists t, minimize_oc FloatOOps demo_params demo_obs None 200 demo_vars = Some t /\
